@@ -31,23 +31,38 @@ def recv_strict_stub(I, run, args, kwargs, node):
     return v
 
 
+_FMT = {"!H": ("be", 2), ">H": ("be", 2), "!Q": ("be", 8), ">Q": ("be", 8), "!I": ("be", 4), ">I": ("be", 4), "!B": ("be", 1), "B": ("be", 1),
+        "<H": ("le", 2), "<Q": ("le", 8), "<I": ("le", 4)}
+
+
 def unpack_stub(I, run, args, kwargs, node):
+    """struct.unpack(fmt, v) for the single-integer formats -> (beint(v),) : the same term as int.from_bytes(v, 'big')."""
     fmt = I.resolve(run, args[0])
-    rng = {"!H": 65535, "!Q": 2 ** 64 - 1, "!I": 2 ** 32 - 1, ">H": 65535, ">Q": 2 ** 64 - 1}
     run.effect("struct.unpack", args, node=node)
-    if isinstance(fmt, C) and fmt.v in ("!H", ">H") and isinstance(args[1], App) and args[1].op == "slice" \
-            and args[1].args[1] in (C(0), NONE) and args[1].args[2] == C(2) and args[1].args[3] == NONE:
+    if isinstance(fmt, C) and fmt.v in _FMT and _FMT[fmt.v][0] == "be" and isinstance(args[1], App) and args[1].op == "slice" \
+            and args[1].args[1] in (C(0), NONE) and args[1].args[2] == C(2) and args[1].args[3] == NONE and _FMT[fmt.v][1] == 2:
         from .transfer import be16_of
         return Tup((be16_of(run, args[1].args[0]),))
-    if isinstance(fmt, C) and fmt.v in rng:
-        s = App("unpacked", (fmt, args[1]), "int")
-        run.assume_range(s, 0, rng[fmt.v])
+    if isinstance(fmt, C) and fmt.v in _FMT:
+        order, n = _FMT[fmt.v]
+        s = App("beint" if order == "be" else "leint", (args[1],), "int")
+        run.assume_range(s, 0, 2 ** (8 * n) - 1)
+        # a size mismatch between the format and the bytes read is struct.error
+        from . import transfer
+        ln = transfer._b_len(I, run, [args[1]], {}, node)
+        if isinstance(ln, C) and ln.v != n:
+            from .absint import RaiseSig
+            raise RaiseSig(run.alloc(HObj("struct.error", {"args": Tup(())})), node)
         return Tup((s,))
     run.seq += 1
     return App("ret", (C("struct.unpack"), C(run.seq)))
 
 
 def pack_stub(I, run, args, kwargs, node):
+    fmt = I.resolve(run, args[0])
+    if isinstance(fmt, C) and fmt.v in _FMT and len(args) == 2:
+        order, n = _FMT[fmt.v]
+        return App(order, (args[1], C(n)), "bytes")  # canonical: same term as x.to_bytes(n, 'big')
     return App("pack", tuple(args), "bytes")
 
 
